@@ -167,7 +167,7 @@ CHECKS = {
         "level_note": "Trusted: scheduler, hub, process stand-in, virtual clock. The queue's status string is read only to observe when a worker has terminated.",
         "rule": "for each (mode, stop point k): DFS over thread choices with at most N deviations; non-trivial = k > 0 or a deviation taken; distinct = distinct (worker stop times, execution list)",
         "parts": [
-            part("c17", "pkg/shell-operator", "TestVerifC17", ["zz_verif_c17_test.go", "zz_verif_c03_test.go", "zz_verif_fixture_test.go"], shards={"quick": 13, "thorough": 16},
+            part("c17", "pkg/shell-operator", "TestVerifC17", ["zz_verif_c17_test.go", "zz_verif_c03_test.go", "zz_verif_fixture_test.go"], shards={"quick": 16, "thorough": 16},
                  extra=OP_EXTRA, instrument=OP_INSTR, gomaxprocs=1),
             part("c17b", "pkg/task/queue", "TestVerifC17b", ["zz_verif_c05_test.go", "zz_verif_c17b_test.go"], shards={"quick": 8, "thorough": 16}, gomaxprocs=1,
                  instrument={"files": [{"path": "pkg/task/queue/task_queue.go", "sync": True, "time": True, "conc": True, "touch": ["started", "q.Status"]}]}),
